@@ -415,7 +415,12 @@ def check_case(ctx, case):
                 def twice():
                     # the equivalent filter applied to ONE catalog object twice: first not in place, then in place
                     c_ = cat()
-                    first = c_.filter(st_, in_place=False).event_count
+                    copy_ = c_.filter(st_, in_place=False)
+                    first = copy_.event_count
+                    # what is done to the returned catalog afterwards is not done to the original
+                    copy_.filter("magnitude >= %r" % (edges[-1] + 1000.0), in_place=True)
+                    if c_.event_count != n:
+                        return ("original_changed_through_the_returned_catalog", c_.event_count)
                     second = c_.filter(st_, in_place=True).event_count
                     return first if first == second else (first, second)
                 of = call(twice if k % 2 else (lambda: cat().filter(st_, in_place=False).event_count))
@@ -480,7 +485,7 @@ def place(M, rc, k, fx, fy):
 def cases(draw, max_events=40):
     rc = draw(regions())
     M = model_of(rc)
-    mc = {"start": draw(st.sampled_from(["4.95", "5.95", "2.5", "3", "0", "-1", "4.0", "2.45"])),
+    mc = {"start": draw(st.sampled_from(["4.95", "5.95", "2.5", "3", "0", "-1", "4.0", "2.45", "0.00001", "0.00005"])),
           "step": draw(st.sampled_from(["0.1", "0.2", "0.5", "1", "0.25", "0.3"])), "n": draw(st.integers(1, 8)),
           "bound": draw(st.booleans())}
     if not mc["bound"] and draw(st.booleans()):
